@@ -337,3 +337,95 @@ func emptinessCoversAllDenoms(e *Engine) (bool, string) {
 	}
 	return true, e.Pos(fn.Pos())
 }
+
+// accessPath renders a pure access path (loads, field selections, constant indexing, nullary getter calls) rooted at a
+// parameter, alloc, global or call result, e.g. "t12.Block*.MaxGas*". Two values with equal non-empty paths denote
+// the same memory location read (go/ssa does no CSE; equality is structural and assumes no intervening store, which
+// callers establish separately where it matters). Returns "" if v is not such a path.
+func accessPath(v ssa.Value) string {
+	switch x := v.(type) {
+	case *ssa.UnOp:
+		if x.Op == token.MUL {
+			if p := accessPath(x.X); p != "" {
+				return p + "*"
+			}
+		}
+		return ""
+	case *ssa.FieldAddr:
+		if p := accessPath(x.X); p != "" {
+			return p + "." + fieldName(x)
+		}
+		return ""
+	case *ssa.Field:
+		if p := accessPath(x.X); p != "" {
+			return p + "." + fieldNameV(x)
+		}
+		return ""
+	case *ssa.ChangeType:
+		return accessPath(x.X)
+	case *ssa.Convert:
+		return accessPath(x.X)
+	case *ssa.Parameter, *ssa.Alloc, *ssa.Global, *ssa.Call, *ssa.Extract, *ssa.Phi, *ssa.FreeVar:
+		return "@" + v.Name() + "#" + v.Parent().Name()
+	}
+	return ""
+}
+
+func samePath(a, b ssa.Value) bool {
+	if a == b {
+		return true
+	}
+	pa := accessPath(a)
+	return pa != "" && pa == accessPath(b)
+}
+
+// lowerBoundGuards: guards on value x (matched structurally by samePath) whose surviving edge proves x >= k; returns
+// the guards together with the proven bound.
+func lowerBoundGuards(fn *ssa.Function, x ssa.Value) (gs []Guard, bounds []int64) {
+	for _, i := range ifs(fn) {
+		b, ok := i.Cond.(*ssa.BinOp)
+		if !ok {
+			continue
+		}
+		var k int64
+		var op token.Token
+		if kk, isK := constInt(b.Y); isK && samePath(b.X, x) {
+			k, op = kk, b.Op
+		} else if kk, isK := constInt(b.X); isK && samePath(b.Y, x) {
+			k = kk
+			switch b.Op { // k OP x  ⇒  x OP' k
+			case token.LSS:
+				op = token.GTR
+			case token.LEQ:
+				op = token.GEQ
+			case token.GTR:
+				op = token.LSS
+			case token.GEQ:
+				op = token.LEQ
+			default:
+				op = b.Op
+			}
+		} else {
+			continue
+		}
+		switch op {
+		case token.GEQ: // x >= k on true
+			gs, bounds = append(gs, Guard{If: i, Survive: 0}), append(bounds, k)
+		case token.GTR: // x > k on true ⇒ x >= k+1
+			gs, bounds = append(gs, Guard{If: i, Survive: 0}), append(bounds, k+1)
+		case token.LSS: // x < k false ⇒ x >= k
+			gs, bounds = append(gs, Guard{If: i, Survive: 1}), append(bounds, k)
+		case token.LEQ: // x <= k false ⇒ x >= k+1
+			gs, bounds = append(gs, Guard{If: i, Survive: 1}), append(bounds, k+1)
+		}
+	}
+	return
+}
+
+// blockDominatedByEdge: block b is reachable only through the surviving edge of g.
+func blockDominatedByEdge(fn *ssa.Function, b *ssa.BasicBlock, g Guard) bool {
+	if g.If.Block().Succs[0] == g.If.Block().Succs[1] {
+		return false
+	}
+	return !reachable(fn, fn.Blocks[0], surviveEdges([]Guard{g}))[b]
+}
